@@ -102,6 +102,14 @@ class Recorder:
             'check': None,
             'read_seq': None,
         }
+        try:
+            import os as _os
+            src = _os.path.join(CTX.sandbox, 'cmd_cc' if _os.path.basename(
+                proc.args[0]) == 'binary_cc' else 'cmd')
+            with open(proc.args[0], 'rb') as f1, open(src, 'rb') as f2:
+                d['bin_same'] = f1.read() == f2.read()
+        except OSError:
+            d['bin_same'] = None
         oc = self.open_checks.get(proc.actor)
         if oc is not None:
             d['check'] = oc['idx']
